@@ -102,8 +102,10 @@ Proof.
     + lia.
     + (* Lookup *) unfold lookup. destruct (nth_error (loops s) i) as [lp|] eqn:Hl; simpl; rewrite ?forged_to_nil; [|lia].
       destruct (lpc lp) eqn:Hp; simpl; rewrite ?forged_to_nil; try lia;
-        pose proof (count_set_pc (armedp c m) _ _ _ (PLooked (hunt_find (amac (laddr lp)) (hunt s))) Hl) as Hcnt;
+        (match goal with |- context [set_pc i ?p (loops s)] =>
+           pose proof (count_set_pc (armedp c m) _ _ _ p Hl) as Hcnt end);
         unfold armedp in *; simpl in Hcnt; rewrite Hp in Hcnt; simpl in Hcnt;
+        (destruct (closed s); simpl in Hcnt; [lia|]);
         (destruct (hunt_find (amac (laddr lp)) (hunt s)) as [t|] eqn:Hf; simpl in Hcnt; [|lia]);
         (destruct (amac t =? m) eqn:Et; simpl in Hcnt; [|lia]);
         exfalso; apply hunt_find_some in Hf as [Hin _]; unfold hunted in Hh; rewrite hunt_has_false in Hh;
@@ -113,7 +115,7 @@ Proof.
       match goal with |- context [set_pc i ?p (loops s)] =>
         pose proof (count_set_pc (armedp c m) _ _ _ p Hl) as Hcnt end.
       unfold armedp in *. simpl in Hcnt. rewrite Hp in Hcnt.
-      destruct found as [t|]; destruct (closed s); simpl in Hcnt; try lia.
+      destruct found as [t|]; simpl in Hcnt; try lia.
       * rewrite announce_forged in Hcnt. simpl in Hcnt. lia.
       * rewrite restore_not_forged in Hcnt by auto. simpl in Hcnt. lia.
     + (* Send *) unfold send. destruct (nth_error (loops s) i) as [lp|] eqn:Hl; simpl; rewrite ?forged_to_nil; [|lia].
@@ -202,25 +204,31 @@ Qed.
 (* ---------------------------------------------------------------- *)
 (* one loop, step by step *)
 
+Definition looked_pc (s : state) (a : addr) : pc :=
+  if closed s then PDone else PLooked (hunt_find (amac a) (hunt s)).
+
 Lemma lookup_step c s i a p :
   loop_at s i a p -> at_select p = true ->
-  step c s (Lookup i) = (set_loops s (set_pc i (PLooked (hunt_find (amac a) (hunt s))) (loops s)), []) /\
-  loop_at (fst (step c s (Lookup i))) i a (PLooked (hunt_find (amac a) (hunt s))).
+  step c s (Lookup i) = (set_loops s (set_pc i (looked_pc s a) (loops s)), []) /\
+  loop_at (fst (step c s (Lookup i))) i a (looked_pc s a).
 Proof.
-  unfold loop_at. intros Hl Hp. simpl. unfold lookup. rewrite Hl. simpl.
+  unfold loop_at, looked_pc. intros Hl Hp. simpl. unfold lookup. rewrite Hl. simpl.
   destruct p; try discriminate; (split; [reflexivity|]); simpl; apply (set_pc_same _ _ _ _ Hl).
 Qed.
 
+Definition checked_pc (c : cfg) (a : addr) (found : option addr) : pc :=
+  match found with
+  | Some target => PSend (announce c (amac target)) true
+  | None => PSend (restore c (amac a)) false
+  end.
+
 Lemma check_step c s i a found :
   loop_at s i a (PLooked found) ->
-  let p := match found with
-           | Some target => if closed s then PDone else PSend (announce c (amac target)) true
-           | None => if closed s then PDone else PSend (restore c (amac a)) false
-           end in
-  step c s (Check i) = (set_loops s (set_pc i p (loops s)), []) /\ loop_at (fst (step c s (Check i))) i a p.
+  step c s (Check i) = (set_loops s (set_pc i (checked_pc c a found) (loops s)), []) /\
+  loop_at (fst (step c s (Check i))) i a (checked_pc c a found).
 Proof.
-  unfold loop_at. intros Hl. simpl. unfold check. rewrite Hl. simpl.
-  split; [reflexivity|]. simpl. apply (set_pc_same _ _ _ _ Hl).
+  unfold loop_at, checked_pc. intros Hl. simpl. unfold check. rewrite Hl. simpl.
+  split; [destruct found; reflexivity|]. simpl. destruct found; apply (set_pc_same _ _ _ _ Hl).
 Qed.
 
 Lemma send_step s i a f cont c :
@@ -269,7 +277,7 @@ Theorem stop_undone : forall c s1 a i p x1 x2 x3,
   cfg_ok c ->
   loop_at s1 i a p -> at_select p = true -> closed s1 = false -> hunted s1 (amac a) = false ->
   none_of (is_loop_event i) x1 -> none_of is_close x1 -> none_of (is_start_of (amac a)) x1 ->
-  none_of (is_loop_event i) x2 -> none_of is_close x2 ->
+  none_of (is_loop_event i) x2 ->
   none_of (is_loop_event i) x3 ->
   let s4 := final c s1 (x1 ++ [Lookup i] ++ x2 ++ [Check i] ++ x3) in
   loop_at s4 i a (PSend (restore c (amac a)) false) /\
@@ -277,21 +285,18 @@ Theorem stop_undone : forall c s1 a i p x1 x2 x3,
     step c s4 (Send i) = (s5, if Nat.eqb (failn s4) 0 then [restore c (amac a)] else []) /\
     loop_at s5 i a PDone.
 Proof.
-  intros c s1 a i p x1 x2 x3 Hc Hl Hp Hcl Hh N1 C1 S1 N2 C2 N3 s4.
+  intros c s1 a i p x1 x2 x3 Hc Hl Hp Hcl Hh N1 C1 S1 N2 N3 s4.
   set (sa := final c s1 x1).
   assert (Hla : loop_at sa i a p) by (apply others_keep; auto).
   assert (Hca : closed sa = false) by (unfold sa; rewrite closed_kept; auto).
   assert (Hha : hunted sa (amac a) = false) by (apply unhunted_kept; auto).
   destruct (lookup_step c sa i a p Hla Hp) as [_ Hlb].
   assert (Hf : hunt_find (amac a) (hunt sa) = None) by (apply hunt_find_none; exact Hha).
-  rewrite Hf in Hlb.
+  unfold looked_pc in Hlb. rewrite Hca, Hf in Hlb.
   set (sb := fst (step c sa (Lookup i))) in *.
-  assert (Hcb : closed sb = false).
-  { unfold sb. rewrite step_closed; auto. }
   set (sc := final c sb x2).
   assert (Hlc : loop_at sc i a (PLooked None)) by (apply others_keep; auto).
-  assert (Hcc : closed sc = false) by (unfold sc; rewrite closed_kept; auto).
-  destruct (check_step c sc i a None Hlc) as [_ Hld]. rewrite Hcc in Hld.
+  destruct (check_step c sc i a None Hlc) as [_ Hld]. unfold checked_pc in Hld.
   set (sd := fst (step c sc (Check i))) in *.
   assert (Hs4 : s4 = final c sd x3).
   { unfold s4, sd, sc, sb, sa. rewrite !final_app. simpl. reflexivity. }
@@ -326,10 +331,11 @@ Qed.
 (* ---------------------------------------------------------------- *)
 (* C13_close_stops, interleaved *)
 
-Definition in_flight (lp : loop) : bool := match lpc lp with PSend _ _ => true | _ => false end.
+(* past its lock section (lookup + read of h.closed), not yet through its write *)
+Definition in_flight (lp : loop) : bool := match lpc lp with PLooked _ | PSend _ _ => true | _ => false end.
 Definition scan_decided (x : scan) : bool := match sdec x with Some _ => true | None => false end.
-(* what is already decided but not yet written: loops between check and write, replies in flight, scans that
-   have passed their h.closed test *)
+(* what is already decided but not yet written: loops between their lock section and their write, replies in
+   flight, scans that have passed their h.closed test *)
 Definition pendingL (s : state) : nat := count in_flight (loops s).
 Definition pendingS (s : state) : nat := count scan_decided (scans s).
 Definition pending (s : state) : nat := (pendingL s + List.length (rxq s) + pendingS s)%nat.
@@ -363,13 +369,12 @@ Proof.
   - lia.
   - lia.
   - unfold lookup. destruct (nth_error (loops s) i) as [lp|] eqn:Hl; simpl; [|lia].
-    destruct (lpc lp) eqn:Hp; simpl; try lia;
+    destruct (lpc lp) eqn:Hp; simpl; try lia; rewrite Hc;
       (match goal with |- context [set_pc i ?p (loops s)] =>
          pose proof (count_set_pc in_flight _ _ _ p Hl) as Hcnt end);
       unfold in_flight in *; simpl in Hcnt; rewrite Hp in Hcnt; simpl in Hcnt; lia.
   - unfold check. destruct (nth_error (loops s) i) as [lp|] eqn:Hl; simpl; [|lia].
     destruct (lpc lp) eqn:Hp; simpl; try lia.
-    rewrite Hc.
     (match goal with |- context [set_pc i ?p (loops s)] =>
          pose proof (count_set_pc in_flight _ _ _ p Hl) as Hcnt end).
     unfold in_flight in *. simpl in Hcnt. rewrite Hp in Hcnt.
@@ -448,33 +453,22 @@ Proof.
   - pose proof (api_keeps_pending c s e Ha) as G. rewrite Hs in G. simpl in G. lia.
 Qed.
 
-(* once closed, a loop's next iteration ends it, silently, whatever others do in between *)
-Theorem close_ends_loop : forall c s a i p x1 x2,
+(* once closed, a loop at its select ends at its next pass through the lock section, silently, whatever others
+   do before (h.closed is read together with the lookup) *)
+Theorem close_ends_loop : forall c s a i p x1,
   closed s = true -> loop_at s i a p -> at_select p = true ->
-  none_of (is_loop_event i) x1 -> none_of (is_loop_event i) x2 ->
+  none_of (is_loop_event i) x1 ->
   let sa := final c s x1 in
-  let sb := fst (step c sa (Lookup i)) in
-  let sc := final c sb x2 in
-  snd (step c sa (Lookup i)) = [] /\ snd (step c sc (Check i)) = [] /\
-  loop_at (fst (step c sc (Check i))) i a PDone.
+  snd (step c sa (Lookup i)) = [] /\ loop_at (fst (step c sa (Lookup i))) i a PDone.
 Proof.
-  intros c s a i p x1 x2 Hc Hl Hp N1 N2 sa sb sc.
+  intros c s a i p x1 Hc Hl Hp N1 sa.
   assert (Hla : loop_at sa i a p) by (apply others_keep; auto).
   assert (Hca : closed sa = true).
   { apply (final_inv (fun s' => closed s' = true) (fun _ => true) c); auto.
     - intros s' e H _. apply step_closed_mono; auto.
     - apply forallb_forall; auto. }
-  destruct (lookup_step c sa i a p Hla Hp) as [E Hlb]. fold sb in Hlb.
-  split; [rewrite E; reflexivity|].
-  assert (Hcb : closed sb = true) by (apply step_closed_mono; auto).
-  assert (Hlc : loop_at sc i a (PLooked (hunt_find (amac a) (hunt sa)))) by (apply others_keep; auto).
-  assert (Hcc : closed sc = true).
-  { apply (final_inv (fun s' => closed s' = true) (fun _ => true) c); auto.
-    - intros s' e H _. apply step_closed_mono; auto.
-    - apply forallb_forall; auto. }
-  destruct (check_step c sc i a _ Hlc) as [E2 Hld]. rewrite Hcc in Hld.
-  split; [rewrite E2; reflexivity|].
-  destruct (hunt_find (amac a) (hunt sa)); exact Hld.
+  destruct (lookup_step c sa i a p Hla Hp) as [E Hlb]. unfold looked_pc in Hlb. rewrite Hca in Hlb.
+  split; [rewrite E; reflexivity|exact Hlb].
 Qed.
 
 (* a loop that has returned stays returned and silent *)
@@ -537,9 +531,9 @@ Proof.
       destruct (Nat.eq_dec i j) as [->|Hne].
       * unfold lookup, loop_at in *. rewrite Hl. simpl.
         destruct p; try discriminate; simpl; try (exists j, a0; eexists; split; [exact Hl|auto]).
-        -- exists j, a0. eexists. split; [apply (set_pc_same _ _ _ _ Hl)|]. split; auto. simpl.
+        -- exists j, a0. eexists. split; [apply (set_pc_same _ _ _ _ Hl)|]. split; auto. rewrite Hc. simpl.
           destruct (hunt_find (amac a0) (hunt s)) eqn:Hf; auto. apply hunt_find_none in Hf. rewrite Ha in Hf. congruence.
-        -- exists j, a0. eexists. split; [apply (set_pc_same _ _ _ _ Hl)|]. split; auto. simpl.
+        -- exists j, a0. eexists. split; [apply (set_pc_same _ _ _ _ Hl)|]. split; auto. rewrite Hc. simpl.
           destruct (hunt_find (amac a0) (hunt s)) eqn:Hf; auto. apply hunt_find_none in Hf. rewrite Ha in Hf. congruence.
       * exists j, a0, p. split; auto. unfold loop_at in *. apply (step_loop_kept c s (Lookup i)); auto.
         simpl. apply Nat.eqb_neq. auto.
@@ -549,7 +543,7 @@ Proof.
       destruct (Nat.eq_dec i j) as [->|Hne].
       * unfold check, loop_at in *. rewrite Hl. simpl.
         destruct p; try discriminate; simpl; try (exists j, a0; eexists; split; [exact Hl|auto]).
-        destruct found as [t|]; try discriminate. rewrite Hc.
+        destruct found as [t|]; try discriminate.
         exists j, a0. eexists. split; [apply (set_pc_same _ _ _ _ Hl)|]. auto.
       * exists j, a0, p. split; auto. unfold loop_at in *. apply (step_loop_kept c s (Check i)); auto.
         simpl. apply Nat.eqb_neq. auto.
@@ -580,32 +574,30 @@ Proof.
 Qed.
 
 (* a loop at its select whose MAC is hunted: its next iteration (others interleaving, no StopHunt of that MAC
-   before the lookup, no Close before the check) hands the connection the forged announcement for exactly that
+   before the lookup, no Close before the lookup) hands the connection the forged announcement for exactly that
    MAC and the loop goes back to its select — also when the write is refused *)
 Theorem periodic_announce : forall c s a i p x1 x2 x3,
   loop_at s i a p -> at_select p = true -> closed s = false ->
   hunted (final c s x1) (amac a) = true ->
   none_of (is_loop_event i) x1 -> none_of is_close x1 ->
-  none_of (is_loop_event i) x2 -> none_of is_close x2 ->
+  none_of (is_loop_event i) x2 ->
   none_of (is_loop_event i) x3 ->
   let s4 := final c s (x1 ++ [Lookup i] ++ x2 ++ [Check i] ++ x3) in
   exists s5,
     step c s4 (Send i) = (s5, if Nat.eqb (failn s4) 0 then [announce c (amac a)] else []) /\
     loop_at s5 i a PWait.
 Proof.
-  intros c s a i p x1 x2 x3 Hl Hp Hcl Hh N1 C1 N2 C2 N3 s4.
+  intros c s a i p x1 x2 x3 Hl Hp Hcl Hh N1 C1 N2 N3 s4.
   set (sa := final c s x1) in *.
   assert (Hla : loop_at sa i a p) by (apply others_keep; auto).
   assert (Hca : closed sa = false) by (unfold sa; rewrite closed_kept; auto).
-  destruct (lookup_step c sa i a p Hla Hp) as [_ Hlb].
+  destruct (lookup_step c sa i a p Hla Hp) as [_ Hlb]. unfold looked_pc in Hlb. rewrite Hca in Hlb.
   destruct (hunt_find (amac a) (hunt sa)) as [t|] eqn:Hf; [|apply hunt_find_none in Hf; unfold hunted in Hh; congruence].
   apply hunt_find_some in Hf as [_ Ht].
   set (sb := fst (step c sa (Lookup i))) in *.
-  assert (Hcb : closed sb = false) by (unfold sb; rewrite step_closed; auto).
   set (sc := final c sb x2).
   assert (Hlc : loop_at sc i a (PLooked (Some t))) by (apply others_keep; auto).
-  assert (Hcc : closed sc = false) by (unfold sc; rewrite closed_kept; auto).
-  destruct (check_step c sc i a (Some t) Hlc) as [_ Hld]. rewrite Hcc, Ht in Hld.
+  destruct (check_step c sc i a (Some t) Hlc) as [_ Hld]. unfold checked_pc in Hld. rewrite Ht in Hld.
   set (sd := fst (step c sc (Check i))) in *.
   assert (Hs4 : s4 = final c sd x3).
   { unfold s4, sd, sc, sb, sa. rewrite !final_app. simpl. reflexivity. }
